@@ -133,10 +133,10 @@ def gen_amp(rng, uid, power_mode, before_raman=False):
     op = {}
     r = rng.random()
     if r < 0.3:                       # full settings
-        op = {'gain_target': rng.choice([15, 18.5, 20, 22, 12.25, 25]), 'delta_p': rng.choice([0, 1, -1, 2.5, None]),
+        op = {'gain_target': rng.choice([15, 18.5, 20, 22, 12.25, 25, 0]), 'delta_p': rng.choice([0, 1, -1, 2.5, None]),
               'tilt_target': rng.choice([0, 0, -0.5, 1.123456]), 'out_voa': rng.choice([0, 1, 2.5, None])}
     elif r < 0.65:                    # partial
-        for k, vals in (('gain_target', [16, 19.75, 21, None]), ('delta_p', [0, 1.5, -2, None]),
+        for k, vals in (('gain_target', [16, 19.75, 21, None, 0]), ('delta_p', [0, 1.5, -2, None]),
                         ('tilt_target', [0, -1]), ('out_voa', [0, 0.5, 3, None])):
             if rng.random() < 0.45:
                 op[k] = rng.choice(vals)
@@ -169,6 +169,19 @@ def gen_line(rng, tag, span, feat):
             else:
                 els[-1].setdefault('op', {})['delta_p'] = rng.choice([0, 1])
             els.append(gen_fiber(rng, uid('raman'), max_km, raman=True))
+        elif shape < 0.07:
+            # a short span of several fibres spliced by Fused nodes (below the padding), user att_in on any of them
+            nf = rng.choice([2, 2, 3])
+            for q in range(nf):
+                f = gen_fiber(rng, uid('fiber'), max_km, allow_lumped=False)
+                f['len'] = round(rng.choice([0.5, 2, 5, 8, 12, rng.uniform(0.1, 15)]), 3)
+                if rng.random() < (0.6 if q == 0 else 0.3):
+                    f['att_in'] = rng.choice([1, 2.5, 0.5, 3])
+                else:
+                    f.pop('att_in', None)
+                els.append(f)
+                if q < nf - 1:
+                    els.append({'k': 'U', 'uid': uid('fused'), 'loss': rng.choice([1, 0.5, 0])})
         elif shape < 0.70 - feat['fused']:
             els.append(gen_fiber(rng, uid('fiber'), max_km, allow_lumped=lum))
         elif shape < 0.80:
@@ -236,6 +249,35 @@ def gen_case(rng, kind='valid'):
             r['target_pch_out_db'] = rng.choice([-20, -18, -21.5, -17])
         roadms[f'roadm {x}'] = r
     case = {'kind': kind, 'span': span, 'roadms': roadms, 'lines': lines, 'shuffle': rng.choice([None, None, rng.randint(1, 10 ** 6)])}
+    # SI band: inside the amplifier band, or with an edge exactly on the amplifiers' f_min / f_max
+    case['si'] = {'f_min': rng.choice([191.3e12, 191.3e12, 191.3e12, 191.275e12, 191.35e12]),
+                  'f_max': rng.choice([195.1e12, 195.1e12, 195.1e12, 196.125e12, 196.1e12])}
+    # ROADM equalisation: node level power / PSD / power per slot width, and per-degree overrides of any type
+    # (the degree is named after the first element of the line, a user amplifier)
+    for r in sorted(roadms):
+        if rng.random() < 0.3:
+            spec = roadms[r]
+            spec.pop('target_pch_out_db', None)
+            prm = spec.setdefault('params', {})
+            t = rng.choice(['pch', 'psd', 'psw'])
+            if t == 'pch':
+                prm['target_pch_out_db'] = rng.choice([-20, -18.5, -21])
+            elif t == 'psd':
+                prm['target_psd_out_mWperGHz'] = rng.choice([3.125e-4, 2.5e-4, 4e-4])
+            else:
+                prm['target_out_mWperSlotWidth'] = rng.choice([2.0e-4, 1.6e-4, 2.5e-4])
+            for ln in [l for l in lines if l['src'] == r]:
+                if rng.random() < 0.6:
+                    if not ln['els'] or ln['els'][0]['k'] != 'A':
+                        ln['els'].insert(0, {'k': 'A', 'uid': f'amp deg {r[-1]}{ln["dst"][-1]}'})
+                    deg = ln['els'][0]['uid']
+                    t2 = rng.choice(['pch', 'psd', 'psw'])
+                    if t2 == 'pch':
+                        prm.setdefault('per_degree_pch_out_db', {})[deg] = rng.choice([-19, -21.5, -17])
+                    elif t2 == 'psd':
+                        prm.setdefault('per_degree_psd_out_mWperGHz', {})[deg] = rng.choice([3.9e-4, 2.0e-4])
+                    else:
+                        prm.setdefault('per_degree_psd_out_mWperSlotWidth', {})[deg] = rng.choice([2.4e-4, 1.2e-4])
     if kind == 'raman_auto':
         # put a Raman span behind an automatically designed amplifier on one line
         ln = rng.choice(lines)
@@ -251,7 +293,9 @@ def gen_case(rng, kind='valid'):
         f['len'] = round(span['max_length'] * rng.choice([1, 1.3, 2.2]), 3)
         ln['els'] = [gen_amp(rng, 'amp x', span['power_mode'], before_raman=True), f]
     if kind == 'roadm_zero_target':
-        roadms[rng.choice(sorted(roadms))]['target_pch_out_db'] = 0
+        rz = roadms[rng.choice(sorted(roadms))]
+        rz.pop('params', None)
+        rz['target_pch_out_db'] = 0
     if rng.random() < 0.08:
         # a transceiver reached through fibre (no ROADM in between)
         x = rng.choice(names)
@@ -411,7 +455,7 @@ def drive(case):
     from gnpy.tools.json_io import network_from_json
     from gnpy.tools.worker_utils import designed_network
     from gnpy.core import elements as E
-    eq = build_equipment(case['span'])
+    eq = build_equipment(case['span'], case.get('si'))
     rec = {}
     tj = topology_json(case)
     try:
